@@ -166,7 +166,13 @@ func checkC18(r *report.Report, tier string, seed int64) error {
 			defer wg.Done()
 			defer func() { <-sem }()
 			c := cs[i]
-			dir, err := cases.NewScratch("c18", tool.Files{c.Dir + "/" + c.File: cases.Fixed[c.Input]})
+			files := tool.Files{c.Dir + "/" + c.File: cases.Fixed[c.Input]}
+			if i%3 == 1 && c.OutFlag == "" && strings.HasSuffix(c.File, ".go") {
+				// a longer, older output already lies at the default output path
+				ext := filepath.Ext(c.File)
+				files[c.Dir+"/"+strings.TrimSuffix(c.File, ext)+".gen"+ext] = ref[c.Input] + strings.Repeat("// stale tail of a longer, older output\n", 40)
+			}
+			dir, err := cases.NewScratch("c18", files)
 			if err != nil {
 				mu.Lock(); firstErr = err; mu.Unlock()
 				return
@@ -192,7 +198,10 @@ func checkC18(r *report.Report, tier string, seed int64) error {
 			for _, p := range created {
 				o.Created[p] = after[p]
 			}
-			o.Changed = append(modified, deleted...)
+			for _, p := range modified {
+				o.Created[p] = after[p] // an existing output overwritten: compared like a created file
+			}
+			o.Changed = deleted
 			obs[i] = o
 		}(i)
 	}
